@@ -1,5 +1,6 @@
 SPECIFICATION Spec
 CONSTANTS
+  Wide = FALSE
   Kinds = {"rot2", "rot3", "quat", "about", "scalefac", "tcoords"}
 INVARIANT RoundTrip
 INVARIANT VecRoundTrip
